@@ -22,7 +22,21 @@ def child(case):
             return
         await eng.compare_view('start')
         for i, kind in enumerate(case['steps']):
-            eng.step(kind)
+            if case.get('race') and i % 3 == 1:
+                # the daemon changes *during* a refresh (before answering its k-th call): that refresh is not judged, the next
+                # synchronised one is - whatever the interrupted refresh left behind must not survive
+                eng.step('add')
+                r = eng.refreshes + 1
+                fired = []
+                eng.placements[(r, eng.rng.randrange(1, 4))] = (lambda kind=kind: (eng.step(kind), fired.append(1)))
+                await eng.srv.wait_until(lambda: fired or eng.refreshes >= r + 1, 120)
+                eng.placements.clear()
+                if not fired:
+                    eng.step(kind)
+                else:
+                    eng.bump('steps_placed_inside_a_refresh')
+            else:
+                eng.step(kind)
             if case.get('two_step') and i % 3 == 2:
                 continue       # let two world changes fall between synchronised refreshes
             if not await eng.wait_synchronised():
@@ -56,8 +70,14 @@ def gen_cases(tier, seed):
             steps.append('mine_some')
         cases.append({'seed': rng.randrange(1 << 30), 'steps': steps, 'txindex': i % 2 == 0, 'colls': rng.choice((0, 1)),
                       'policy': rng.choice(('random', 'lazy', 'eager')), 'p': 0.3, 'many': 230 if tier == 'quick' else 460,
-                      'latency': rng.choice((None, None, (0, 0.1, 1))), 'two_step': i % 4 == 1, 'sample': i < 2,
+                      'latency': rng.choice((None, None, (0, 0.1, 1))), 'two_step': i % 4 == 1, 'sample': i < 2, 'race': i % 4 == 3,
                       'prefetch': rng.choice((2, 100))})
+    # a parent confirmed between the listing and the fetch of a refresh while its child stays: whatever that refresh drops must
+    # be picked up by the next one
+    for j in range(16 if tier == "quick" else 60):
+        cases.append({'seed': rng.randrange(1 << 30), 'steps': ['add_chain', 'mine_parents', 'add', 'add_chain', 'mine_parents', 'add'],
+                      'txindex': False, 'colls': 0, 'policy': rng.choice(('random', 'lazy', 'eager')), 'p': 0.3, 'latency': None,
+                      'two_step': False, 'race': True, 'prefetch': 100})
     return cases
 
 
@@ -71,7 +91,7 @@ def run(tier, seed, replay=None):
     c = rep.counters
     for name, minimum in {'synchronised_refreshes_compared': 300, 'nonempty_views_compared': 1000, 'touched_completeness_checks': 250,
                           'scripthashes_that_changed': 500, 'step:add_chain': 10, 'step:mine_parents': 10, 'step:add_genlike': 10,
-                          'step:evict': 10, 'step:add_many': 3, 'invariant_evaluations': 10000}.items():
+                          'step:evict': 10, 'step:add_many': 3, 'invariant_evaluations': 10000, 'steps_placed_inside_a_refresh': 10}.items():
         rep.floor(name, c[name], minimum)
     return rep.finish(
         rule='sequences of 4-9 daemon mempool/chain steps (arrivals with confirmed/unconfirmed parents, chains of 8-30 unconfirmed txs, '
@@ -80,6 +100,7 @@ def run(tier, seed, replay=None):
              'waits for a refresh that began and ended with the daemon unchanged and the index at the daemon height (recorded at the '
              'MemPoolAPI hand-over) and compares, for every script hash, balance delta, summaries (hash, fee, flag), unconfirmed UTXOs, '
              'potential spends and the pool key set with the reference model, plus completeness of the touched sets handed over since '
-             'the previous synchronised refresh. distinct = (step word, txindex, schedule hash)',
+             'the previous synchronised refresh. In a quarter of the sequences every third step is applied in the middle of a refresh '
+             '(that refresh is not judged; the next synchronised one is). distinct = (step word, txindex, schedule hash)',
         assumptions=['daemon batch replies are in request order', 'fee not compared for txs with generation-like inputs',
                      'script hashes of OP_RETURN-style scripts are not compared (ambiguous)'])
